@@ -86,9 +86,11 @@ def view_rect(view, W, Hh):
     if view == 'abs':
         return b'VIEW SCREEN (4,10)-(19,21)', (4, 10, 19, 21), False
     if view == 'relcorner':
-        return b'VIEW (%d,%d)-(%d,%d)' % (W - 16, Hh - 12, W - 1, Hh - 1), (W - 16, Hh - 12, W - 1, Hh - 1), True
+        # (corners given right-to-left: VIEW puts them in order)
+        return b'VIEW (%d,%d)-(%d,%d)' % (W - 1, Hh - 12, W - 16, Hh - 1), (W - 16, Hh - 12, W - 1, Hh - 1), True
     if view == 'abs0':
-        return b'VIEW SCREEN (0,0)-(15,11)', (0, 0, 15, 11), False
+        # (corners given bottom-to-top)
+        return b'VIEW SCREEN (0,11)-(15,0)', (0, 0, 15, 11), False
     raise CheckError('unknown view ' + view)
 
 
@@ -244,6 +246,12 @@ class Env(object):
                 ref = tmpl
             for y, row in enumerate(rows):
                 t = ref[y]
+                if len(row) != len(t):
+                    # the picture itself has changed shape: pixels were stored beyond the edge of the screen
+                    bad.append(('beyond-screen', 'page %d row %d is %d pixels long, the screen is %d wide' % (
+                        p, y, len(row), len(t))))
+                    row[:] = tmpl[y]
+                    continue
                 if row != t:
                     if p != self.apage:
                         x = next(i for i in range(g.w) if row[i] != t[i])
